@@ -74,7 +74,12 @@ def one(ctx, FP, d, delta):
             ph = own(g.generate(d, delta))
         av = own(g.generate(d, delta, return_alpha=True))
         gamma = 1 / np.cosh((1 / L) * np.arccosh(1 / delta))
-        ph_gamma = own(g.generate(d, gamma=float(gamma)))
+        if zlib.crc32(repr((d, delta, "gamma-form")).encode()) % 2:
+            ph_gamma = own(g.generate(d, None, float(gamma)))          # the documented positional order: d, delta, gamma
+            ctx.count("gamma-form:positional")
+        else:
+            ph_gamma = own(g.generate(d, gamma=float(gamma)))
+            ctx.count("gamma-form:keyword")
     except Exception as e:  # noqa
         ctx.case([d, delta], True, {"d": d, "delta": delta, "raised": type(e).__name__})
         ctx.violation("c18:raises:" + type(e).__name__, "generate raised %s (%s) on a search length in 1..200 and delta in (0,1)" % (type(e).__name__, str(e)[:80]),
